@@ -3,7 +3,7 @@ import os
 import sys
 import z3
 sys.path.insert(0, os.path.dirname(os.path.dirname(os.path.abspath(__file__))))
-from props.common import main, Run, run_child, ALL_SIDECARS  # noqa: E402
+from props.common import witnesses_for, failure_name, main, Run, run_child, ALL_SIDECARS  # noqa: E402
 from props import faces  # noqa: E402
 
 SIDE = ALL_SIDECARS
@@ -24,7 +24,8 @@ def make_replayer(run):
             cache["d"] = run_child(run.repo.root, "parse_diff.py", [str(run.seed)])
         d = cache["d"]
         want = "non-seekable" if "caller-stream-not-consumed" in o.name else None
-        fl = [f for f in d.get("failures", []) if (want is None) == ("non-seekable" not in f["how"])] or ([] if want else d.get("failures", []))
+        fl = witnesses_for("C06", o, d.get("failures", []), lambda f: failure_name("parse_diff", f))
+        fl = [f for f in fl if (want is None) == ("non-seekable" not in f["how"])] or ([] if want else fl)
         if fl:
             f = fl[0]
             return {"reproduced": True, "failing_input_hex": f["bytes"], "delivered_as": f["how"], "what": f["what"],
